@@ -241,10 +241,15 @@ func c12Run(t *testing.T, p c12Plan) (res vfResult) {
 					// a restart only reads: should it write, every step of such a write is a place to be killed at as well,
 					// and the image must then still describe a configuration in force
 					restoreWrote, restoreBad := 0, ""
+					// (the restoring goroutine is not one of the controller's actors and passes the hooks; the actors keep
+					// parking at them - while this goroutine waits inside a restart, virtual time may pass and let a deploy
+					// that was waiting for a probe reach its snapshot: were it let through, it would queue on the snapshot
+					// lock behind a parked holder, invisibly to the bubble, and the case would hang. It did, once in the
+					// thorough tier.)
 					sc.mu.Lock()
-					sc.off = true // restoring must not park at the hooks
+					restorer := vfGoID()
 					sc.observe = func(pt string) {
-						if !strings.HasPrefix(pt, "snapshot.") || removedDuringImage {
+						if vfGoID() != restorer || !strings.HasPrefix(pt, "snapshot.") || removedDuringImage {
 							return
 						}
 						restoreWrote++
@@ -267,7 +272,6 @@ func c12Run(t *testing.T, p c12Plan) (res vfResult) {
 							// the second start ran `remove`: this start must show exactly the others
 							if _, still := gl[removed]; still || len(gl) != len(gotLists[0])-1 {
 								sc.mu.Lock()
-								sc.off = false
 								sc.observe = nil
 								sc.mu.Unlock()
 								res.failf("crash-image-then-command", "after a kill while %v, a restart, `remove %s` and another restart the proxy lists %v (first restart listed %v)", where, removed, gl, gotLists[0])
@@ -295,7 +299,6 @@ func c12Run(t *testing.T, p c12Plan) (res vfResult) {
 						}
 					}
 					sc.mu.Lock()
-					sc.off = false
 					sc.observe = nil
 					sc.mu.Unlock()
 					removedDuringImage = false
